@@ -107,6 +107,56 @@ cached_state_harness!(c20_cached_pending_recreates, true, false, false); // tier
 cached_state_harness!(c20_cached_pending_and_during, true, false, true); // tier=thorough cap=3600
 // @verif-end
 
+static ON_RELOAD_CALLS: AtomicUsize = AtomicUsize::new(0);
+static CB_VALUE: AtomicBool = AtomicBool::new(false);
+
+// @verif props=C20 tier=quick cap=900 group=autoreload fns=Notifier::{new,request_reload,set_callback,set_on_should_reload_callback,should_reload,weak}
+/// The notifier's request flag and its freshness callback are independent channels: for EVERY combination of
+/// (a request was issued - directly or through a weak notifier handle as the file watcher does, a freshness
+/// callback is registered, what it returns) should_reload() is `requested OR (callback registered AND it
+/// returns true)` - a registered callback never hides an explicit request, and asking does not consume it.
+/// (Only functions every variant of the crate is likely to keep are named here: a harness that does not
+/// compile decides nothing.)
+#[kani::proof]
+#[kani::unwind(4)]
+fn c20_request_and_callback_are_independent() {
+    let requested: bool = kani::any();
+    let via_weak: bool = kani::any();
+    let has_cb: bool = kani::any();
+    let cb_val: bool = kani::any();
+    let has_on: bool = kani::any();
+    ON_RELOAD_CALLS.store(0, Ordering::SeqCst);
+    CB_VALUE.store(cb_val, Ordering::SeqCst);
+    let n = Notifier::new();
+    if has_cb {
+        n.set_callback(|| CB_VALUE.load(Ordering::SeqCst));
+    }
+    if has_on {
+        n.set_on_should_reload_callback(|| {
+            ON_RELOAD_CALLS.fetch_add(1, Ordering::SeqCst);
+        });
+    }
+    if requested {
+        if via_weak {
+            let w = n.weak();
+            w.request_reload();
+            core::mem::forget(w);
+        } else {
+            n.request_reload();
+        }
+    }
+    assert!(n.should_reload() == (requested || (has_cb && cb_val)));
+    // asking again gives the same answer (the flag is consumed by the reload, not by the question)
+    assert!(n.should_reload() == (requested || (has_cb && cb_val)));
+    // a further request keeps it pending
+    n.request_reload();
+    assert!(n.should_reload());
+    kani::cover!(requested && has_cb && !cb_val);
+    kani::cover!(!requested && has_cb && cb_val && has_on);
+    kani::cover!(requested && via_weak);
+    core::mem::forget(n);
+}
+
 #[cfg(test)]
 mod playback {
     use super::*;
